@@ -360,6 +360,14 @@ func instrumentFile(p *packages.Package, f *ast.File, fe *fileEdits) {
 					return true
 				}
 				insertBefore(x, "R6")
+				// A read whose value is used inside the same statement (x.Set(x.Get()-d),
+				// c.limit.Set(cfg.Limit.Read().Bytes())): the statement-level yield comes before
+				// both, so the point between the read and its use gets a yield of its own.
+				if nestedValueUse(parents, x) && singleResult(obj) {
+					rep.Rules["R6n"]++
+					fe.add(fset, x.Pos(), x.Pos(), fmt.Sprintf("zzsim.After(%q, ", site(p, x.Pos(), "R6n")))
+					fe.add(fset, x.End(), x.End(), ")")
+				}
 				return true
 			}
 			// R7: disk operations in cache and config
@@ -465,6 +473,31 @@ func isR6(obj *types.Func, full string) bool {
 		}
 	}
 	return false
+}
+
+// nestedValueUse reports whether the value of call is an operand of a larger expression that
+// ends in another call inside the same statement (and not inside a go, defer or function literal
+// boundary, whose operands are evaluated at another time).
+func nestedValueUse(parents map[ast.Node]ast.Node, call *ast.CallExpr) bool {
+	outerCall := false
+	for cur := parents[ast.Node(call)]; cur != nil; cur = parents[cur] {
+		switch c := cur.(type) {
+		case *ast.GoStmt, *ast.DeferStmt, *ast.FuncLit:
+			return false
+		case *ast.CallExpr:
+			if _, isConv := c.Fun.(*ast.ArrayType); !isConv {
+				outerCall = true
+			}
+		case ast.Stmt:
+			return outerCall
+		}
+	}
+	return false
+}
+
+func singleResult(f *types.Func) bool {
+	sig, ok := f.Type().(*types.Signature)
+	return ok && sig.Results().Len() == 1
 }
 
 func isR9(pkg, full string) bool {
